@@ -204,6 +204,12 @@ for _f in sorted(_glob.glob(_os.path.join(_os.path.dirname(_os.path.abspath(__fi
 # C09, word-count clause: title-less text-only pages with and without unlikely subtrees on both sides of the
 # two-pass threshold (the pages of C20), judged by C09_WordCountMatchesText in CallsTrace
 PROPS["C09"]["stages"].append(_c09_wordcount_stage())
+# ... and the rich documents of the call-history families (odd titles, pagers, tables, images): the same predicate
+# is evaluated on every Return there, and is reported here
+import props_C01 as _pc01
+PROPS["C09"]["stages"].append(dict(_pc01.stage(_pc01.c11_groups, 120, 3000), name="richdocs", handler="C11"))
+# C08: the order of the document filters (relevant elements -> lead image -> nested elements) is part of every call's trace
+PROPS["C08"]["stages"].append(dict(_pc01.stage(_pc01.c11_groups, 60, 1500), name="filter-order", handler="C11"))
 
 
 PROPS["C07"]["stages"] += _render_stages()
